@@ -232,6 +232,7 @@ func e2eRun(c *Ctx, seed int64, spec *e2eSpec, dir string) *e2eOutcome {
 	}
 	var pendingMut []mutation
 	releasing := 0
+	frozen := false // set while the run decides that everything is done and during the final stop: a file changed after the sender's last scan is nobody's fault
 	w.onAction = func(kind string) {
 		mu.Lock()
 		actions++
@@ -250,7 +251,7 @@ func e2eRun(c *Ctx, seed int64, spec *e2eSpec, dir string) *e2eOutcome {
 		case "store:remove:return", "cache:done:return":
 			releasing--
 		}
-		if releasing == 0 {
+		if releasing == 0 && !frozen {
 			todo, pendingMut = pendingMut, nil
 		}
 		crash := false
@@ -371,8 +372,14 @@ func e2eRun(c *Ctx, seed int64, spec *e2eSpec, dir string) *e2eOutcome {
 		if lf > out.lastDisrupt {
 			out.lastDisrupt = lf
 		}
+		mu.Lock()
+		frozen = true
+		mu.Unlock()
 		if w.vt() > 30*time.Second && allDone() {
 			if len(spec.QuietMutations) > 0 && !quietDone {
+				mu.Lock()
+				frozen = false
+				mu.Unlock()
 				// second act: new versions appear only now, so that two versions of a
 				// name are never in flight together
 				quietDone = true
@@ -389,11 +396,17 @@ func e2eRun(c *Ctx, seed int64, spec *e2eSpec, dir string) *e2eOutcome {
 			out.quiescentAt = w.vt()
 			break
 		}
+		mu.Lock()
+		frozen = false
+		mu.Unlock()
 		if w.vt()-out.lastDisrupt > bound {
 			break
 		}
 	}
 	// ---- phase 2: graceful stop
+	mu.Lock()
+	frozen = true
+	mu.Unlock()
 	w.snd.stop <- true
 	out.terminated = w.snd.waitDone(2 * time.Hour)
 	synctest.Wait()
